@@ -62,6 +62,23 @@ def gen_config(rng, i, quick):
     return cfg, threads, jitter
 
 
+def gen_single_entry_config(rng, j):
+    """external source whose packets all enter through ONE subgrid (subgrids stacked along the line of sight), a packet
+    count that is not a multiple of the batch size and several threads: after every full batch all staging blocks are
+    empty again, so the left-over packets sit in exactly one block -- the corner in which 'which block still holds
+    packets' decisions and the per-block locks matter"""
+    cfg, th, jit = gen_config(rng, j, True)
+    k = rng.choice([1, 2, 3, 4])
+    cont = rng.choice(["Planar", "DistantStar"])
+    nsub = [1, 1, k] if cont == "Planar" else [k, 1, 1]
+    cps = rng.choice([2, 3])
+    nsubtot = k
+    cfg.update(nsub=nsub, ncell=[n * cps for n in nsub], continuous=cont, sources=[], copy_level=0,
+               nphoton=rng.choice([1, 199, 201, 399, 1001, 1799, 4001]), niter=3,
+               nbuffers=27 * nsubtot * 2 + 600)
+    return cfg, rng.choice([2, 3, 4, 8, 16]), jit
+
+
 def gen_rhd_config(rng, i):
     """radiation hydrodynamics: the same photon loop inside --task-based-rhd (2 steps, radiation every step)"""
     import hydrorun
@@ -149,6 +166,9 @@ def main():
             for rep in range(4 if quick else 40):
                 jobs.append((900 + k, rp["cfg"], rp["threads"], "%d:200:2000" % rng.randint(1, 10 ** 6), exe, root, False))
                 k += 1
+        for i in range(8 if quick else 120):
+            cfg, th, jit = gen_single_entry_config(rng.fork("s%d" % i), i)
+            jobs.append((700 + i, cfg, th, jit, exe, root, False))
         for i in range(6 if quick else 60):
             cfg, th, jit = gen_rhd_config(rng.fork("r%d" % i), i)
             jobs.append((i, cfg, th, jit, exe, root, False))
